@@ -192,12 +192,15 @@ def r3_request_loads(run):
     # loads delegates
     ld = m.func("request.Request.loads")
     cs = [c2 for c2 in calls_named(ld.node, "_loads")]
-    ok = len(cs) == 1 and [unparse(a) for a in cs[0].args] == \
-        ["xmldata", "binding", "origdoc", "must"] and \
-        unparse(arg_of(cs[0], None, "only_valid_cert")) == "only_valid_cert"
+    got = {}
+    if len(cs) == 1:
+        for i, pn in enumerate(("xmldata", "binding", "origdoc", "must",
+                                "only_valid_cert")):
+            a = arg_of(cs[0], i, pn)
+            got[pn] = unparse(a) if a is not None else None
+    ok = bool(got) and all(v == k for k, v in got.items())
     run.check(ok, "R3", ld.qual + "::delegate", "loads() forwards everything",
-              "loads() forwards %s" % [unparse(a) for c2 in cs for a in c2.args],
-              ld.loc())
+              "loads() forwards %s" % got, ld.loc())
 
 
 def r4_class_parser_agreement(run):
